@@ -1,28 +1,46 @@
 (* Entry points evaluated by the correspondence harness (props/C05.py). *)
 From PV Require Export C05.Spec.
 
-Definition jzs (l : list Z) : jv := JL (map JZ l).
+(* returned objects are compared by identity: (pid, start ticks) *)
+Definition jid (t : table) (q : Z) : jv :=
+  JL [JZ q; JZ (match lookup t q with Some e => kp_start e | None => -1 end)].
+Definition jids (t : table) (l : list Z) : jv := JL (map (jid t) l).
 Definition jtimeout : jv := JC "Timeout" [].
-Definition jfuel (o : outcome (option (list Z))) : jv :=
-  match o with
-  | Val (Some l) => JC "Val" [jzs l]
-  | Val None => jtimeout
-  | Exc e => JC "Exc" [JC (exn_name e) []]
+Definition jnsp : jv := JC "Exc" [JC "NoSuchProcess" []].
+(* NoSuchProcess carrying another PID than the caller's: a live caller never raises for itself *)
+Definition jexc (t : table) (o : pobj) (e : exn) : jv :=
+  match e with
+  | NoSuchProcess => if alive_b t o then JC "Exc" [JC "NoSuchProcessOther" []] else jnsp
+  | _ => JC "Exc" [JC (exn_name e) []]
+  end.
+Definition jout {A} (t : table) (o : pobj) (f : A -> jv) (r : outcome A) : jv :=
+  match r with
+  | Val a => JC "Val" [f a]
+  | Exc e => jexc t o e
   | OutOfModel => JC "OutOfModel" []
   end.
+Definition jfuel (t : table) (o : pobj) (r : outcome (option (list Z))) : jv :=
+  match r with
+  | Val None => jtimeout
+  | _ => jout t o (fun x => match x with Some l => jids t l | None => jnone end) r
+  end.
 Definition jpar (x : option (Z * Z)) : jv := jopt (fun ps => JL [JZ (fst ps); JZ (snd ps)]) x.
-Definition jnsp : jv := JC "Exc" [JC "NoSuchProcess" []].
 
 Definition mk_table (l : list (Z * Z * Z)) : table :=
   map (fun x => {| kp_pid := fst (fst x); kp_ppid := snd (fst x); kp_start := snd x |}) l.
+Definition mk_fixes (a b c d : bool) : fixes :=
+  {| fx_skip_self := a; fx_parents_seen := b; fx_parent_reuse := c; fx_parents_nsp := d |}.
 
 (* spec answer by caller state: alive -> demanded value, recycled -> NoSuchProcess,
-   gone (PID absent) -> nothing demanded *)
+   gone (PID absent) -> nothing demanded beyond "a value or NoSuchProcess(caller)" *)
 Definition by_state (t : table) (o : pobj) (v : jv) : jv :=
   if alive_b t o then v else if recycled_b t o then jnsp else jnone.
 
+Definition the_chain (t : table) (gone goneb : list Z) (o : pobj) : option (list Z) :=
+  spec_parents_v t gone goneb (length t) (o_pid o).
+
 (* class tags computed from the input (used for the known-finding classes) *)
-Definition tags (t : table) (gone : list Z) (cache : option Z) (o : pobj) : jv :=
+Definition tags (t : table) (gone goneb : list Z) (cache : option Z) (o : pobj) : jv :=
   JL [ jbool (alive_b t o);
        jbool (recycled_b t o);
        (* the caller is its own descendant: a ppid cycle (or self-loop) through it *)
@@ -30,38 +48,46 @@ Definition tags (t : table) (gone : list Z) (cache : option Z) (o : pobj) : jv :
        (* the caller is its own parent *)
        jbool (own_parent_b t (o_pid o));
        (* the chain of parents from the caller never reaches the root *)
-       jbool (match spec_parents t (length t) (o_pid o) with None => true | Some _ => false end);
+       jbool (match the_chain t gone goneb o with None => true | Some _ => false end);
        (* stale lowest-PID cache *)
        jbool (negb (cache_fresh_b t cache));
        (* the caller is the lowest PID as parent() sees it *)
-       jbool (match lowest_pid t cache with Val l => o_pid o =? l | _ => false end) ].
+       jbool (match lowest_pid t cache with Val l => o_pid o =? l | _ => false end);
+       (* an ancestor vanishes after parents() appended it *)
+       jbool (match the_chain t gone goneb o with
+              | Some l => existsb (fun q => memz q goneb) l
+              | None => negb (match goneb with [] => true | _ => false end)
+              end) ].
 
+(* outside the domain: a PID listed twice / out of range, or a table that lists no process
+   at all (the process running psutil is always listed; pids()[0] would be an IndexError) *)
 Definition guard (t : table) (body : jv) : jv :=
-  if wf_table t then body else JL [JC "OutOfModel" []; jnone; JL []].
+  if wf_table t && negb (match t with [] => true | _ => false end) then body
+  else JL [JC "OutOfModel" []; jnone; JL []].
 
-Definition run_children (fx : fixes) (tl : list (Z * Z * Z)) (gone : list Z) (cache : option Z) (o : pobj) : jv :=
+Definition run_children (fx : fixes) (tl : list (Z * Z * Z)) (gone goneb : list Z) (cache : option Z) (o : pobj) : jv :=
   let t := mk_table tl in
-  guard t (JL [ jv_outcome jzs (children_direct fx t gone o);
-                by_state t o (JC "Val" [jzs (spec_children t gone (o_pid o) (o_ident o))]);
-                tags t gone cache o ]).
+  guard t (JL [ jout t o (jids t) (children_direct fx t gone o);
+                by_state t o (JC "Val" [jids t (spec_children t gone (o_pid o) (o_ident o))]);
+                tags t gone goneb cache o ]).
 
-Definition run_children_rec (fx : fixes) (tl : list (Z * Z * Z)) (gone : list Z) (cache : option Z) (o : pobj) : jv :=
+Definition run_children_rec (fx : fixes) (tl : list (Z * Z * Z)) (gone goneb : list Z) (cache : option Z) (o : pobj) : jv :=
   let t := mk_table tl in
-  guard t (JL [ jfuel (children_rec fx (S (length t)) t gone o);
-                by_state t o (JC "Val" [jzs (spec_descendants t gone (o_pid o) (o_ident o))]);
-                tags t gone cache o ]).
+  guard t (JL [ jfuel t o (children_rec fx (S (length t)) t gone o);
+                by_state t o (JC "Val" [jids t (spec_descendants t gone (o_pid o) (o_ident o))]);
+                tags t gone goneb cache o ]).
 
-Definition run_parent (fx : fixes) (tl : list (Z * Z * Z)) (gone : list Z) (cache : option Z) (o : pobj) : jv :=
+Definition run_parent (fx : fixes) (tl : list (Z * Z * Z)) (gone goneb : list Z) (cache : option Z) (o : pobj) : jv :=
   let t := mk_table tl in
-  guard t (JL [ jv_outcome jpar (parent fx t cache o);
-                by_state t o (JC "Val" [jpar (spec_parent t (o_pid o) (o_ident o))]);
-                tags t gone cache o ]).
+  guard t (JL [ jout t o jpar (parent fx t gone cache o);
+                by_state t o (JC "Val" [jpar (spec_parent_v t gone (o_pid o) (o_ident o))]);
+                tags t gone goneb cache o ]).
 
-Definition run_parents (fx : fixes) (tl : list (Z * Z * Z)) (gone : list Z) (cache : option Z) (o : pobj) : jv :=
+Definition run_parents (fx : fixes) (tl : list (Z * Z * Z)) (gone goneb : list Z) (cache : option Z) (o : pobj) : jv :=
   let t := mk_table tl in
-  guard t (JL [ jfuel (parents fx (S (length t)) t cache o);
-                by_state t o (match spec_parents t (length t) (o_pid o) with
-                              | Some l => JC "Val" [jzs l]
+  guard t (JL [ jfuel t o (parents fx (S (length t)) t gone goneb cache o);
+                by_state t o (match the_chain t gone goneb o with
+                              | Some l => JC "Val" [jids t l]
                               | None => JC "Cyclic" []
                               end);
-                tags t gone cache o ]).
+                tags t gone goneb cache o ]).
